@@ -87,6 +87,13 @@ def call_pool(rng, n_per_kind):
             variants = O.VARIANTS.get(fmt, ["plain"])
             calls.append({"kind": "dump_one", "fmt": fmt, "seed": rng.randint(0, 10**6), "variant": variants[i % len(variants)],
                           "allow": bool(i % 2)})
+    # wavefunctions with ghost / ECP centres, foreign conventions and unsorted shells (the C01 generator) to every wavefunction format
+    for i, fmt in enumerate(("fchk", "molden", "molekel", "wfn", "wfx")):
+        for ghost in ("ghost", "ecp"):
+            cfg = {"fmt": fmt, "allow": True, "natom": 2, "ghost": ghost, "shells": [[1, [[0, "c"]]], [0, [[1, "c"]]], [0, [[2, "c"]]]],
+                   "order": "reverse", "conv": ["wfn", "molden", "fchk", "cca", "horton2"][i], "mo": "rclosed", "virtuals": True,
+                   "rdms": False, "big": False}
+            calls.append({"kind": "dump_wfn", "fmt": fmt, "cfg": cfg, "seed": rng.randint(0, 10**6)})
     for fmt in O.DUMP_MANY:
         calls.append({"kind": "dump_many", "fmt": fmt, "seed": rng.randint(0, 10**6), "n": 3})
     for prog in ("gaussian", "orca"):
@@ -94,7 +101,9 @@ def call_pool(rng, n_per_kind):
     # conversions (load then dump) and failing calls
     conv = [("water.xyz", "xyz", "sdf"), ("water.mol2", "mol2", "pdb"), ("h2o_sto3g.fchk", "fchk", "molden"),
             ("h2o_sto3g.fchk", "fchk", "wfx"), ("h2o_sto3g.wfn", "wfn", "fchk"), ("water_sto3g_hf_g03.fchk", "fchk", "wfn"),
-            ("h2_ub3lyp_ccpvtz.wfx", "wfx", "molekel"), ("li_sp_virtual_norm1.mkl", "molekel", "molden")]
+            ("h2_ub3lyp_ccpvtz.wfx", "wfx", "molekel"), ("li_sp_virtual_norm1.mkl", "molekel", "molden"),
+            ("he2_ghost_psi4_1.0.molden", "molden", "wfx"), ("he2_ghost_psi4_1.0.molden", "molden", "fchk"),
+            ("nh3_molden_cart.molden", "molden", "molekel"), ("nh3_turbomole.molden", "molden", "wfn")]
     data = os.path.join(REPO, "iodata", "test", "data")
     for src, f1, f2 in conv:
         if os.path.exists(os.path.join(data, src)):
@@ -124,6 +133,10 @@ def run_call(c, tmp):
             if k == "dump_one":
                 obj = O.make(c["fmt"], random.Random(c["seed"]), c["variant"])
                 api.dump_one(obj, out, fmt=c["fmt"], allow_changes=c["allow"])
+            elif k == "dump_wfn":
+                from . import c01
+                cfg = dict(c["cfg"], shells=[(cc, [tuple(t) for t in cons]) for cc, cons in c["cfg"]["shells"]])
+                api.dump_one(c01.build(cfg, c["seed"]), out, fmt=c["fmt"], allow_changes=True)
             elif k == "dump_many":
                 rng = random.Random(c["seed"])
                 objs = [O.make(c["fmt"], rng, "plain") for _ in range(c["n"])]
@@ -174,6 +187,9 @@ def _child(mode, spec_path):
                 do(cid)
         else:  # threads: every thread runs its own list; tables are digested when all threads are done
             barrier = threading.Barrier(len(spec["threads"]))
+            if spec.get("switch"):
+                import sys
+                sys.setswitchinterval(spec["switch"])     # preempt threads inside the numerical kernels, not only at I/O
             if spec.get("forced"):
                 _install_forced_schedule(spec["forced"])
 
@@ -311,7 +327,12 @@ def check(run: Run):
     for nt in ([2, 4, 16] if not run.thorough() else [2, 3, 4, 8, 16, 16]):
         lists = [[rng.choice(ids) for _ in range(run.pick(12, 30))] for _ in range(nt)]
         thr.append({"calls": calls, "threads": lists})
-    io_calls = [c["id"] for c in calls if c["kind"] in ("dump_one", "dump_many", "load_one", "load_many", "convert")]
+    # compute-heavy calls (basis-set normalisation checks, overlap matrices, conversions) preempted at a fine switch interval
+    heavy = [c["id"] for c in calls if c["fmt"] in ("molden", "molekel", "fchk", "wfn", "wfx", "mwfn") or c["kind"] in ("convert", "dump_wfn")]
+    for nt in ([2, 4, 8] if not run.thorough() else [2, 2, 3, 4, 4, 8, 8, 16]):
+        lists = [[rng.choice(heavy) for _ in range(run.pick(8, 20))] for _ in range(nt)]
+        thr.append({"calls": calls, "threads": lists, "switch": 1e-5})
+    io_calls = [c["id"] for c in calls if c["kind"] in ("dump_one", "dump_many", "load_one", "load_many", "convert", "dump_wfn")]
     for pts in (["open"], ["write", "read"], ["open", "close"], ["open", "write", "read", "close"]):
         for rep in range(run.pick(2, 6)):
             lists = [[rng.choice(io_calls) for _ in range(10)] for _ in range(2)]
